@@ -332,7 +332,8 @@ pub fn large(ctx: &mut Ctx) {
     // two more variables that no function depends on: their levels stay empty, and the reversals
     // below move empty levels past populated ones
     let n = 2 * k + 2;
-    let threads = 4u32;
+    // 2, 3, 4 or 8 workers: the concurrent paths split their work by the number of workers
+    let threads = [4u32, 2, 3, 8][(ctx.shard + ctx.seed as usize) % 4];
     let label = format!("c08large n={n} threads={threads} seed={} shard={}", ctx.seed, ctx.shard);
     println!("@@{{\"t\":\"case\",\"case\":{}}}", crate::ctx::json_str(&label));
     let mref = oxidd::bdd::new_manager(1 << 22, 1 << 16, threads);
@@ -360,33 +361,85 @@ pub fn large(ctx: &mut Ctx) {
         return;
     }
     ctx.count("concurrent_sort_preconditions_met", 1);
-    let rounds = ctx.by_tier(3, 8);
+    let rounds = ctx.by_tier(8, 24);
     let mut cur: Vec<u32> = (0..n).collect();
     for round in 0..rounds {
-        // even rounds: permute a window of 6 variables in the middle (large levels), different each
-        // round; odd rounds: reverse a long stretch of the order, so that neighbouring level pairs
-        // all have inversions and many swap tasks of the concurrent bubble sort are adjacent
-        let (lo, wlen) = if round % 2 == 0 {
-            (rng.range((k - 6) as usize, (k + 1) as usize) as u32, 6u32)
-        } else if round % 4 == 1 {
-            (0, n)
-        } else {
-            let wlen = rng.range(12, 24) as u32;
-            (rng.range(0, (n - wlen + 1) as usize) as u32, wlen)
+        // The concurrent paths (bubble sort over several swap tasks, parallel update of the level
+        // numbers) are only taken while the manager reports >= 65536 nodes. The diagram stays
+        // large as long as the x-variables (0..k) and the y-variables (k..2k) each stay together,
+        // so most requests permute levels inside one block or rotate / reverse the whole order.
+        // If a request has shrunk the diagram, the next round restores the initial order.
+        let approx_before = mref.with_manager_shared(|m| m.approx_num_inner_nodes());
+        let restore = approx_before < 65536;
+        let kind = if restore { 99 } else if round == 1 { 3 } else { rng.below(8) };
+        // position of the block a stretch is taken from: where variable 0 (x-block) or k (y-block) is now
+        let block_start = |cur: &[u32], first: u32| cur.iter().position(|&v| v == first).unwrap().min(cur.len() - k as usize) as u32;
+        let (lo, wlen): (u32, u32) = match kind {
+            99 => (0, n),
+            0 | 1 => (rng.range((k - 6) as usize, (k + 1) as usize) as u32, 6), // window across the block border
+            2 => {
+                // three neighbouring levels inside a block
+                let b = block_start(&cur, if rng.bool() { 0 } else { k });
+                (b + rng.range(0, (k - 3) as usize) as u32, 3)
+            }
+            3 => (0, n),
+            4 | 5 => {
+                // a stretch of odd or even length inside one block
+                let b = block_start(&cur, if rng.bool() { 0 } else { k });
+                let wlen = rng.range(5, k as usize) as u32;
+                (b + rng.range(0, (k - wlen) as usize) as u32, wlen)
+            }
+            6 => {
+                // all but one or two levels
+                let wlen = n - rng.range(1, 2) as u32;
+                (rng.range(0, (n - wlen) as usize) as u32, wlen)
+            }
+            _ => {
+                let wlen = rng.range(13, n as usize) as u32;
+                (rng.range(0, (n - wlen) as usize) as u32, wlen)
+            }
         };
         let mut window: Vec<u32> = cur[lo as usize..(lo + wlen) as usize].to_vec();
-        if round % 2 == 0 {
-            let before = window.clone();
-            while window == before {
-                rng.shuffle(&mut window);
+        match kind {
+            99 => {
+                window = (0..n).collect();
+                ctx.count("large_restores", 1);
             }
-        } else {
-            window.reverse();
-            ctx.count("large_reversals", 1);
+            0 | 1 => {
+                let before = window.clone();
+                while window == before {
+                    rng.shuffle(&mut window);
+                }
+            }
+            3 => {
+                window.reverse();
+                ctx.count("large_reversals", 1);
+            }
+            _ => {
+                if rng.chance(2, 3) {
+                    let by = rng.range(1, window.len() - 1);
+                    window.rotate_left(by);
+                    ctx.count("large_rotations", 1);
+                } else {
+                    window.reverse();
+                    ctx.count("large_reversals", 1);
+                }
+            }
         }
         let req = window.clone();
+        let approx_now = approx_before;
+        if approx_now >= 65536 {
+            ctx.count("reorderings_taking_the_concurrent_path", 1);
+        }
         mref.with_manager_exclusive(|m| oxidd_reorder::set_var_order(m, &req));
         let after = current_order(&mref);
+        let moved = cur.iter().zip(&after).filter(|(a, b)| a != b).count();
+        if moved % 2 == 1 && approx_now >= 65536 {
+            ctx.count("concurrent_reorderings_moving_an_odd_number_of_levels", 1);
+        }
+        if std::env::var_os("VH_TRACE").is_some() {
+            eprintln!("[trace] {label} round {round}: approx {approx_now} moved levels {moved} request {req:?}");
+        }
         ctx.eval();
         if !consistent(&after, &req) {
             ctx.violation("bdd:large:set_var_order:requested-relative-order", format!("{label} round {round}: request {req:?} after {after:?}"));
@@ -439,5 +492,5 @@ pub fn large(ctx: &mut Ctx) {
     mref.with_manager_shared(|m| m.gc());
     let left = mref.with_manager_shared(|m| m.num_inner_nodes());
     ctx.check(left == 0, "bdd:large:gc:nodes-left-after-dropping-everything", || format!("{label}: {left}"));
-    ctx.sample(|| format!("{label}: f = OR_i(x_i & x_(i+18)) over 36 of 38 variables (2 unused: empty levels; {exact} nodes), {rounds} x set_var_order on {threads} workers, alternating a shuffled window of 6 middle variables and reversals of the whole order / of 12..24 consecutive levels"));
+    ctx.sample(|| format!("{label}: f = OR_i(x_i & x_(i+18)) over 36 of 38 variables (2 unused: empty levels; {exact} nodes), {rounds} x set_var_order on {threads} workers, alternating a shuffled window of 6 middle variables and reversals of the whole order and reversals / rotations of 13..38 consecutive levels"));
 }
